@@ -48,15 +48,27 @@ def generate(rng, tier):
         if rng.random() < 0.3:
             tree["N/M"] = {"t": "d"}
             tree["N/M/m.bin"] = {"t": "f", "c": gen.unique_content(rng)}
+        if rng.random() < 0.35:
+            # siblings whose names merely start with the name of the nested history folder
+            for rel in rng.sample(["N2/p.bin", "N_proxy/p1.mov", "N.bin", "Nx", "N 2/q.bin"], rng.randint(1, 2)):
+                if "/" in rel:
+                    tree[rel.split("/")[0]] = {"t": "d"}
+                tree[rel] = {"t": "f", "c": gen.unique_content(rng)}
     env["tree"] = tree
     files = gen.tree_files(tree)
     ops = []
+    nested_ops = []
     if nested:
         if "N/M" in tree and rng.random() < 0.7:
-            ops.append(scen.cmd("create", "@R/N/M", *gen.fmt_args(gen.pick_formats(rng, 1, 2))))
-        ops.append(scen.cmd("create", "@R/N", *gen.fmt_args(gen.pick_formats(rng, 1, 2))))
+            nested_ops.append(scen.cmd("create", "@R/N/M", *gen.fmt_args(gen.pick_formats(rng, 1, 2))))
+        nested_ops.append(scen.cmd("create", "@R/N", *gen.fmt_args(gen.pick_formats(rng, 1, 2))))
         if "S" in tree and rng.random() < 0.7:
-            ops.append(scen.cmd("create", "@R/S", *gen.fmt_args(gen.pick_formats(rng, 1, 2))))
+            nested_ops.append(scen.cmd("create", "@R/S", *gen.fmt_args(gen.pick_formats(rng, 1, 2))))
+    # the nested histories are usually older than the root history; sometimes they are started when the root history
+    # already has one or two generations that record their files
+    late_at = rng.choice([1, 2]) if nested and rng.random() < 0.3 else 0
+    if not late_at:
+        ops += nested_ops
     late_new = None
     pool = list(observe.FORMATS) if rng.random() < 0.5 else rng.sample(observe.FORMATS, 3)
     n = rng.randint(2, 6 if tier == "thorough" else 5)
@@ -64,6 +76,8 @@ def generate(rng, tier):
         n = rng.randint(11, 14)  # more than nine generations (two-digit generation numbers)
     first_fmts = None
     for g in range(n):
+        if late_at and g == late_at:
+            ops += nested_ops
         if g > 0 and nested and rng.random() < 0.2:
             # a new file appears in one history under a name that is already recorded in another
             newf = rng.choice(["N/", "S/"] if "S" in tree else ["N/"]) + rng.choice(names + ["n.bin"])
@@ -145,11 +159,19 @@ def execute(sc, ctx):
         requested = [argv[i + 1] for i, a in enumerate(argv) if a == "-h"]
         any_prior = False
         relation = []
+        all_roots = observe.find_histories(w.root)
         for hr, num, m in new_manifests:
             hrel = os.path.relpath(hr, w.root)
             for rec in m["files"]:
                 key = (hrel, rec["path"])
                 ap = os.path.join(hr, rec["path"])
+                # a file is judged against (and recorded in) the deepest history whose folder contains it
+                owner = max((r for r in all_roots if os.path.normpath(ap).startswith(r + os.sep)), key=len, default=None)
+                if owner != hr:
+                    ctx.violate({"kind": "record-in-wrong-history"},
+                                f"{argv}: gen {num} of history {hrel!r} records {rec['path']!r}, which belongs to history "
+                                f"{os.path.relpath(owner, w.root) if owner else None!r}")
+                    return
                 known = model.get(key)
                 fmts_here = [e["fmt"] for e in rec["entries"]]
                 if len(set(fmts_here)) != len(fmts_here):
